@@ -5,7 +5,9 @@ import (
 	"crypto/sha256"
 	"encoding/hex"
 	"fmt"
+	"os"
 	"sync"
+	"syscall"
 
 	standardrules "github.com/attestantio/dirk/rules/standard"
 	"github.com/attestantio/dirk/rules"
@@ -100,6 +102,7 @@ type Base struct {
 }
 
 var blsOnce sync.Once
+var markFile *os.File
 
 // NewBase builds wallets, fetcher, checker and unlocker.
 func NewBase(ctx context.Context, spec Spec, log *Log, ctl *Control) (*Base, error) {
@@ -292,11 +295,22 @@ func (s *Stack) Close(ctx context.Context) error {
 // InstallHook routes the repository's verif observation points into the control block and log.
 // decode turns a stored record into trace fields.
 func InstallHook(b *Base, decode func(key, val []byte) Ev) {
+	markFd := -1
+	if os.Getenv("VERIF_MARKERS") != "" {
+		if f, err := os.OpenFile("/dev/null", os.O_WRONLY, 0); err == nil {
+			markFd = int(f.Fd())
+			markFile = f // keep it alive
+		}
+	}
 	verifhook.Hook = func(ctx context.Context, site string, key []byte, val []byte) error {
 		rid := Rid(ctx)
 		var k string
 		if len(key) >= 48 {
 			k = b.Names.key(key[:48])
+		}
+		if markFd >= 0 {
+			// One write system call per passage: shows up in the strace output between the database's own calls.
+			_, _ = syscall.Write(markFd, []byte(fmt.Sprintf("VERIFMARK %s %s %s\n", site, rid, k)))
 		}
 		kind := b.Ctl.Point(rid, site, k)
 		ev := Ev{"r": rid, "k": k, "site": site}
